@@ -146,6 +146,7 @@ def _run(m, call, kw):
 
 
 def _snapshot(m, nvars):
+    nvars = len(m.__dict__['names'])              # add_variable may have added series since the case started
     return {'vals': [[lib.fhex(x) for x in m.__dict__['_V%d' % i]] for i in range(nvars)],
             'status': [str(x) for x in m.__dict__['_status']],
             'iters': [int(x) for x in m.__dict__['_iterations']],
@@ -181,6 +182,11 @@ def impl(case):
             tkw['reset'] = bool(call['reset'])
         if call['entry'] in STATE_OPS:
             m, u = _state_op(m, call, span), _state_op(u, call, span)
+            if call['entry'] == 'edit_spec':
+                for sp in specs:                  # the caller edits, in place, every list it passed as trace= so far
+                    if isinstance(sp, list):
+                        sp.append('V0')
+                        sp.reverse()
         ncol = len(m.__dict__['_columns'])
         olds = [(t, len(t.index) == 0) for t in m.__dict__['_trace']]
         out_m = _run(m, call, tkw)
@@ -200,11 +206,16 @@ def impl(case):
 
 
 DIRECT = ('trace_t', 'trace_period')
-STATE_OPS = ('assign', 'copy', 'reindex')          # what a user does to the instance between solves
+STATE_OPS = ('assign', 'copy', 'reindex', 'edit_spec', 'add_variable')          # what a user does between solves
 
 
 def _state_op(m, call, span):
     e = call['entry']
+    if e == 'edit_spec':
+        return m                                  # (the caller's lists are edited by impl itself: they belong to the traced side)
+    if e == 'add_variable':
+        m.add_variable('V%d' % len(m.__dict__['names']), lib.unhex(call['value']))
+        return m
     if e == 'assign':
         setattr(m, 'V%d' % call['var'], [lib.unhex(x) for x in call['values']])      # whole-series list assignment
         return m
@@ -640,8 +651,10 @@ def c_call(case, call):
         ent = '(ESolvePeriod %s)' % lib.cZ(call['label'])
     elif e == 'assign':
         ent = '(ESetSeries %s %s)' % (lib.cnat(call['var']), lib.clist(lib.cfloat(x) for x in call['values']))
-    elif e in ('copy', 'reindex'):
+    elif e in ('copy', 'reindex', 'edit_spec'):
         ent = 'ENoop'
+    elif e == 'add_variable':
+        ent = '(EAddSeries %s)' % lib.clist([lib.cfloat(call['value'])] * case['n'])
     elif e == 'trace_t':
         ent = '(ETraceT %s %s)' % (lib.cZ(call['t']), c_label(py_label(call['label'])))
     elif e == 'trace_period':
@@ -720,13 +733,13 @@ def c_case17(case, obs):
 def c_acases(case, obs):
     """One term per call that created Trace objects: heap = [model.names, TRACE_VARIABLES?, the caller's list?], the
     observed identity flags and names of the created Traces (Tracer/TracerNames.v)."""
-    nv = case['nvars']
     tv = case.get('trace_variables')
     out = []
     for call, s in zip(case['calls'], obs['steps']):
         al = s.get('alias') or []
         if not al:
             continue
+        nv = len(s['vals'])                       # the model's names list as it is at this call (add_variable appends)
         heap = [lib.clist(lib.cnat(i) for i in range(nv))]
         if tv is not None:
             heap.append(lib.clist(lib.cnat(i) for i in tv))
@@ -885,7 +898,8 @@ def oracle(case, obs):
         a = call.get('trace', ['omit'])
         on = truthy(a)
         reset = bool(call.get('reset'))
-        names = names_of(case, a)
+        nv = len(prev['vals'])                    # add_variable may have added series
+        names = names_of({'nvars': nv, 'trace_variables': case.get('trace_variables')}, a)
         periods = _call_periods(case, call)
         if not tw['traces_untouched']:
             bad('C17|TracerMixin|twin-trace-written', 'call %d: the untraced twin has a non-empty Trace' % ci)
@@ -1273,13 +1287,16 @@ def gen(rng, tier):
     # ---- histories: traced solve, then assign / copy / reindex (and add_variable-free), then the traced solve again
     for ent in ('solve_t', 'solve_period', 'solve'):
         for a in (['flag', True], ['name', 1], ['list', [1, 0]]):
-            for ops in (['assign'], ['copy'], ['reindex'], ['copy', 'assign'], ['assign', 'reindex'], ['reindex', 'assign', 'copy']):
+            for ops in (['assign'], ['copy'], ['reindex'], ['copy', 'assign'], ['assign', 'reindex'], ['reindex', 'assign', 'copy'],
+                        ['edit_spec'], ['add_variable'], ['add_variable', 'copy', 'edit_spec']):
                 c = _case()
                 o = _apply_scenario(c, 1, scen[0])
                 mid = []
                 for j, opn in enumerate(ops):
                     if opn == 'assign':
                         mid.append({'entry': 'assign', 'opts': _opts(), 'var': 1 if j % 2 == 0 else 0, 'values': [H(9.5 + j + 0.25 * q) for q in range(4)]})
+                    elif opn == 'add_variable':
+                        mid.append({'entry': 'add_variable', 'opts': _opts(), 'value': H(2.5)})
                     else:
                         mid.append({'entry': opn, 'opts': _opts()})
                 first = _call(ent, 1, 4, o, a, None, start=0, end=2)
@@ -1571,8 +1588,12 @@ def _random_case(rng, scen):
             if q < 0.5:
                 op = {'entry': 'assign', 'opts': _opts(), 'var': rng.randrange(nv),
                       'values': [H(rng.choice([7.5, -3.25, 0.1, 1e6]) + 0.5 * j) for j in range(n)]}
-            else:
+            elif q < 0.75:
                 op = {'entry': rng.choice(['copy', 'reindex']), 'opts': _opts()}
+            elif q < 0.88:
+                op = {'entry': 'edit_spec', 'opts': _opts()}
+            else:
+                op = {'entry': 'add_variable', 'opts': _opts(), 'value': H(rng.choice([0.0, 2.5, -1.0]))}
             calls.insert(k, op)
     # the public snapshot methods called directly, somewhere in the sequence
     if rng.random() < 0.2:
